@@ -115,9 +115,14 @@ EndsMulti(ln) == ln.k \in {"mc", "mone", "monet"}
 (* length of the comment block starting at line i, 0 = none / unparseable *)
 RECURSIVE SingleRun(_, _, _)
 SingleRun(st, L, i) == IF i <= Len(L) /\ IsSingleComment(st, L[i]) THEN 1 + SingleRun(st, L, i + 1) ELSE 0
+(* a line on which the closer is followed by other text (mcx) makes the block unparseable: the search does not run on *)
+(* to a later closer (it did before repair b0538d1, and everything in between was replaced with the header: KF-C08-1) *)
 MultiLen(L, i) ==
    LET ends == {j \in i..Len(L) : EndsMulti(L[j])}
-   IN  IF ends = {} THEN 0 ELSE (CHOOSE j \in ends : \A m \in ends : j <= m) - i + 1
+       first == CHOOSE j \in ends : \A m \in ends : j <= m
+   IN  IF ends = {} THEN 0
+       ELSE IF \E m \in i..first : L[m].k = "mcx" THEN 0
+       ELSE first - i + 1
 CommentAt(st, L, i) ==
    LET s == SingleRun(st, L, i)
    IN  IF s > 0 THEN s
